@@ -11,6 +11,18 @@ CLAIMED = {
  'C18': dict(level='model_checking', technique='symbolic execution of JsonUtil with z3 (unbounded ints, string atoms); laws as validity queries',
              text='The laws are checked for every value template up to the depth/width bound with symbolic leaves, by feasibility-driven path exploration of the real JsonUtil and validity queries against an independent specification of JSON equality and the JSON round trip.',
              note='Trusted: proxy semantics for int/bool/float/str leaves (strings as ordered atoms), z3; concrete cross-check against the real json module on replays.'),
+ 'C02': dict(level='fault_enumeration', technique='bounded symbolic execution (z3) with a symbolic crash point; pre/post snapshot and twin-history assertions discharged as validity queries; replay on the real OS',
+             text='A symbolic crash position (function, statement boundary) is placed in every skeleton program on history prefixes none/B/B.M; after the failing build the pre-snapshot (bytes, mtime, cache file included) must be back, nothing new may remain, and the next build is compared with its twin run on the restored pre-state.',
+             note='Trusted: environment model, proxies, z3, reference model; crash points are statement boundaries of user code (not arbitrary bytecodes).'),
+ 'C04': dict(level='model_checking', technique='bounded symbolic execution (z3): full query probe at every program point compared with the reference view; consistency laws on the answers',
+             text='At function start, after the nested body, after the write and after every statement all 8 query kinds are issued on every universe path and compared with the from-scratch reference view; four consistency laws are asserted on the implementation answers alone.',
+             note='Trusted: environment model, proxies, z3, reference view; cache-directory visibility excluded as the property allows.'),
+ 'C06': dict(level='model_checking', technique='bounded symbolic execution (z3) with symbolic version values; invalidation set asserted as iff formulas against spec-level JSON equality',
+             text='Version values are JSON templates with symbolic leaves; for every call graph the re-executed set must equal {changed} plus transitive callers, decided by validity queries against an independent JSON-equality formula; results compared with the reference using the new behaviour.',
+             note='Trusted: environment model, proxies, z3, spec_equal formula.'),
+ 'C13': dict(level='model_checking', technique='symbolic execution (z3) with unconstrained content id / size / mtime; the statement as an iff formula',
+             text='re-executed <=> content changed (HASH) / size or mtime changed (METADATA) is a validity query over unbounded integers for inputs, output integrity and read-back, at top level and nested.',
+             note='Trusted: environment model (stat/size/mtime/sha256 stubs), proxies, z3.'),
 }
 NA_REASON = 'check not built yet in this round (work in progress; see DESIGN.md section 12)'
 
